@@ -49,6 +49,10 @@ inductive Op
   | arrive (fr : Bytes) (port : Nat) (dl : Option Nat)
   /-- packet_out / flow_mod naming a buffer id -/
   | use (id : Nat)
+  /-- packet_out / flow_mod naming a buffer id whose action list sends the packet to the controller again
+      (output:CONTROLLER with `max_len = dl`): the packet is re-buffered WHILE its old slot is still occupied
+      (`_process_actions_for_packet` runs before the slot is cleared), then the old slot is freed -/
+  | useCtl (id : Nat) (dl : Nat)
   | setMiss (n : Nat)
 
 inductive Out
@@ -73,9 +77,19 @@ def useStep (s : St) (id : Nat) : St × Out :=
   | (p', some f) => ({ s with pool := p', handed := s.handed.filter (fun e => e.1 ≠ id) }, .emit f.1 f.2)
   | (p', none) => ({ s with pool := p' }, .nothing)
 
+/-- re-buffer and announce first (the slot is still occupied), then release the old slot
+    (`self._packet_buffer[buffer_id] = None`, the same state change as `useStep` on a live id) -/
+def useCtlStep (s : St) (id dl : Nat) : St × Out :=
+  match live s.pool id with
+  | none => (s, .nothing)
+  | some f =>
+    let r := arriveStep s f.1 f.2 (some dl)
+    ((useStep r.1 id).1, r.2)
+
 def step (s : St) : Op → St × Out
   | .arrive fr port dl => arriveStep s fr port dl
   | .use id => useStep s id
+  | .useCtl id dl => useCtlStep s id dl
   | .setMiss n => ({ s with missLen := n }, .nothing)
 
 def init (max missLen : Nat) : St := { pool := { slots := [], max := max }, missLen := missLen, handed := [] }
